@@ -40,6 +40,7 @@ static const Profile& find_profile(const std::string& n) {
 static const char* const g_handle_pool[] = {"a",     "b",  "nick", "my handle", "H-1",    "euler_1d", "A",      "",
                                             "  ",    "x#1", "z z",  "heat",      "TWIN",   "h_3",      "-",      "a ",
                                             "Nick",  "B",  "q.q",  "sol-2",     "masa_uninit", "c c c",   "0",      "long_handle_name_that_is_not_short",
+                                            "run", "run_fine", "h", "euler",
                                             "a_handle_that_is_seventy_characters_long_0123456789_0123456789_0123456",
                                             "a_handle_of_one_hundred_and_thirty_characters_0123456789_0123456789_0123456789_0123456789_0123456789_0123456789_0123456789_012345678"};
 static const int g_num_handles = (int)(sizeof(g_handle_pool) / sizeof(g_handle_pool[0]));
@@ -51,8 +52,13 @@ static const int g_num_wild = (int)(sizeof(g_wild) / sizeof(g_wild[0]));
 
 static std::string decorate(Rng& r, const std::string& name, bool change_case, bool separators) {
   std::string o;
+  bool longrun = separators && r.uni(40) == 0;  // one run longer than any fixed-size buffer
   auto run = [&] {
     int n = r.range(1, 3);
+    if (longrun) {
+      n = r.range(4096, 6000);
+      longrun = false;
+    }
     for (int i = 0; i < n; ++i) o.push_back(r.bern(0.5) ? '-' : ' ');
   };
   if (separators && r.bern(0.35)) run();  // leading
@@ -67,7 +73,7 @@ static std::string decorate(Rng& r, const std::string& name, bool change_case, b
 }
 static std::string near_miss(Rng& r, const std::string& name, const std::vector<Client>& clients) {
   std::string o = name;
-  switch (r.uni(14)) {
+  switch (r.uni(16)) {
     case 0: o.erase(std::remove(o.begin(), o.end(), '_'), o.end()); break;
     case 1: std::replace(o.begin(), o.end(), '_', '-'); break;
     case 2: o += "x"; break;
@@ -79,6 +85,17 @@ static std::string near_miss(Rng& r, const std::string& name, const std::vector<
     case 8: o.insert((size_t)r.uni((int)o.size() + 1), 1, '_'); break;
     case 9: if (!clients.empty() && !clients[0].handles.empty()) o = clients[0].handles[0]; else o = "handle"; break;
     case 10: o = o + o; break;
+    case 13: {  // a complete catalogue name, a NUL byte, then more characters (only a C++ caller can say this)
+      o.push_back('\0');
+      o += r.bern(0.5) ? "xyz" : "_2d";
+      return o;
+    }
+    case 14: {  // longer than any fixed buffer: name + 4096..6000 separators + junk, or junk in front
+      size_t want = (size_t)r.range(4096, 6000);
+      while (o.size() < want) o.push_back(r.bern(0.5) ? ' ' : '-');
+      o += "_but_not_really";
+      return o;
+    }
     case 12: {  // bytes >= 0x80: a high-bit twin of a letter, a Latin-1 no-break space, a soft hyphen
       switch (r.uni(3)) {
         case 0: if (!o.empty()) { size_t i = (size_t)r.uni((int)o.size()); o[i] = (char)((unsigned char)o[i] | 0x80); } break;
@@ -137,11 +154,21 @@ static Step gen_op(Rng& r, const Profile& P, int client, int nh, const Plan& pla
     double u = r.u01();
     if (u < 0.25) s.len = -1;       // same length as the vector has now, other values
     else if (u < 0.40) s.len = -2;  // the length of the neighbouring vector parameter
+    else if (u < 0.48) s.len = -3;  // what is stored now with the sign of every zero flipped
   }
   s.val = g_wild[r.uni(g_num_wild)];
   if (s.op == OP_SET) {
     s.b = r.bern(0.75) ? 0 : 1;  // admissible / wild
     if (r.bern(0.2)) s.val = (r.u01() - 0.5) * 200.0;
+    if (r.uni(25) == 0) {  // a degenerate state: every scalar parameter gets the same value (often zero)
+      s.b = 2;
+      if (r.bern(0.6)) s.val = r.bern(0.5) ? 0.0 : -0.0;
+    }
+  }
+  if (s.op == OP_EVAL || s.op == OP_EVAL_SUP || s.op == OP_EVAL_UNSUP) {
+    int u = r.uni(20);  // mostly interior points; sometimes far outside the unit box, or a negative abscissa
+    if (u == 0) s.x[0] = 2000.0;
+    if (u == 1) s.x[0] = -3.0;
   }
   if (s.op == OP_MIRROR) s.b = r.uni(10) + 10 * r.uni(4);
   if (s.op == OP_SELECT_UNKNOWN) {
@@ -259,8 +286,10 @@ static Plan gen_plan(uint64_t seed, const std::string& profile_name, uint64_t ru
         const Client& o = p.clients[(size_t)r.uni(c)];
         hs = o.handles[(size_t)r.uni((int)o.handles.size())];
       }
+      int sol_h = pick_solution(r, P.name);
+      if (r.uni(20) == 0) hs = g_sols[(size_t)sol_h].name;  // a handle named exactly like the solution it holds
       cl.handles.push_back(hs);
-      ss.push_back(pick_solution(r, P.name));
+      ss.push_back(sol_h);
     }
     p.clients.push_back(cl);
     sols.push_back(ss);
